@@ -134,6 +134,113 @@ def collect_lemma(L):
                       extra_pc=[nv == k], cex=cex)
 
 
+def _word(L, w):
+    from e2.lemma import word_map, word_call
+    return word_map(L.ex, "load_core")[w][0]
+
+
+def map_words_lemma(L):
+    """insert / get / remove on a map cell agree with an association list: the real words are chained on the model of the
+    persistent map (base + written entries): after `insert` the key maps to the value and the original map cell is
+    untouched; `get` of that key gives the value; after `remove` the same `get` gives nil."""
+    from e2.lemma import word_call
+    k, v = L.cell("k"), L.cell("v")
+    m0 = PMap("rpds::RedBlackTreeMap<cell::Cell, cell::Cell>", z3.Const("m0", opaque_sort("rpds::RedBlackTreeMap")), [])
+    mc = Enum("cell::Cell", "Map", Struct("cell::Cell::Map", {0: m0}))
+    keep = clone_val(mc)                               # a second reference to the same map value, lower on the stack
+    pre = Pre(L, stack=[keep, mc, v, k])
+    L.field(pre.S, "State", "stack_limit").variant = "None"
+    pc = pre.pc + [pre.ds_len.t == pre.n0, untagged(L, k), untagged(L, v)]
+    fn, args = word_call(L, _word(L, "insert"), pre.xs)
+    outs = L.run(fn, args, pc, pre.roots())
+    L.witness(outs, lambda o: o.kind == "return" and o.value.variant == "Ok", "insert succeeds")
+    cex = lambda m: {"lines": ["eval { } dup 5 \"k\" insert dup \"k\" get", "stack", "eval drop \"k\" remove \"k\" get", "stack"],
+                     "expect": [("no_panic",), ("last_result_in", ["ok"]), ("cells_are", [("nil", "nil"), ("map", "{ }")]), ("first_cells_are", [("int", "5"), ("map", "{ 5 \"k\" }"), ("map", "{ }")])]}
+    for o in outs:
+        if o.kind != "return" or o.value.variant != "Ok":
+            if o.kind != "return":
+                L.fail(o, "insert must not panic")
+            continue
+        S1 = final_state(L, o)
+        ds1 = L.field(S1, "State", "data_stack")
+        if not L.require(o, z3.BoolVal(len(ds1.items) == 2), "insert leaves the other map reference and pushes one result", cex=cex):
+            continue
+        L.require(o, veq(L.ex, ds1.items[0], keep), "insert does not change a map that is still referenced elsewhere", cex=cex)
+        res = ds1.items[1]
+        okm = isinstance(res, Enum) and res.variant == "Map" and isinstance(res.payload.fields[0], PMap)
+        if not L.require(o, z3.BoolVal(okm), "insert pushes a map", cex=cex):
+            continue
+        pm = res.payload.fields[0]
+        L.require(o, z3.BoolVal(len(pm.entries) == 1 and str(pm.base) == "m0"), "the new map is the old one plus exactly one entry", cex=cex)
+        if len(pm.entries) == 1:
+            L.require(o, z3.And(veq(L.ex, pm.entries[0][0], k), veq(L.ex, pm.entries[0][1], v)), "the entry written is (key, value) in that order", cex=cex)
+        # get the key back
+        xs1 = o.st.ghost["roots"]["xs"]
+        ds1.items.append(clone_val(k))
+        fn2, args2 = word_call(L, _word(L, "get"), xs1)
+        for o2 in L.run(fn2, args2, list(o.st.pc), {"xs": xs1}):
+            if o2.kind != "return":
+                L.fail(o2, "get must not panic")
+                continue
+            if not L.require(o2, z3.BoolVal(o2.value.variant == "Ok"), "get on a map succeeds", cex=cex):
+                continue
+            S2 = final_state(L, o2)
+            d2 = L.field(S2, "State", "data_stack")
+            L.require(o2, z3.BoolVal(len(d2.items) == 2) if len(d2.items) != 2 else veq(L.ex, d2.items[1], v), "get after insert gives the inserted value", cex=cex)
+
+
+def remove_get_lemma(L):
+    from e2.lemma import word_call
+    k, v = L.cell("k"), L.cell("v")
+    pm = PMap("rpds::RedBlackTreeMap<cell::Cell, cell::Cell>", z3.Const("m0", opaque_sort("rpds::RedBlackTreeMap")), [(k, v)])
+    mc = Enum("cell::Cell", "Map", Struct("cell::Cell::Map", {0: pm}))
+    pre = Pre(L, stack=[mc, clone_val(k)])
+    L.field(pre.S, "State", "stack_limit").variant = "None"
+    pc = pre.pc + [pre.ds_len.t == pre.n0, untagged(L, k), untagged(L, v)]
+    fn, args = word_call(L, _word(L, "remove"), pre.xs)
+    for o in L.run(fn, args, pc, pre.roots()):
+        if o.kind != "return":
+            L.fail(o, "remove must not panic")
+            continue
+        if not L.require(o, z3.BoolVal(o.value.variant == "Ok"), "remove on a map succeeds"):
+            continue
+        S1 = final_state(L, o)
+        ds1 = L.field(S1, "State", "data_stack")
+        res = ds1.items[-1] if ds1.items else None
+        okm = isinstance(res, Enum) and res.variant == "Map" and isinstance(res.payload.fields[0], PMap)
+        if not L.require(o, z3.BoolVal(okm and len(ds1.items) == 1), "remove pushes one map"):
+            continue
+        L.require(o, z3.BoolVal(len(res.payload.fields[0].entries) == 0), "remove drops the entry of that key")
+        L.require(o, z3.BoolVal(len(pm.entries) == 1), "remove does not change the map it was given (still referenced elsewhere)")
+
+
+def push_nth_lemma(L):
+    """push appends at the end without touching the vector it was given; nth of the last index gives the pushed cell"""
+    from e2.lemma import word_call
+    x, a0, a1 = L.cell("x"), L.cell("a0"), L.cell("a1")
+    vec = Vec("cell::Cell", None, [a0, a1])
+    vc = Enum("cell::Cell", "Vector", Struct("cell::Cell::Vector", {0: vec}))
+    keep = clone_val(vc)
+    pre = Pre(L, stack=[keep, x, vc])
+    L.field(pre.S, "State", "stack_limit").variant = "None"
+    pc = pre.pc + [pre.ds_len.t == pre.n0]
+    fn, args = word_call(L, _word(L, "push"), pre.xs)
+    cex = lambda m: {"lines": ["eval [ 1 2 ] dup 3 swap push", "stack"], "expect": [("no_panic",), ("cells_are", [("vec", "[ 1 2 3 ]"), ("vec", "[ 1 2 ]")])]}
+    for o in L.run(fn, args, pc, pre.roots()):
+        if o.kind != "return":
+            L.fail(o, "push must not panic", cex=cex)
+            continue
+        if not L.require(o, z3.BoolVal(o.value.variant == "Ok"), "push on a vector succeeds", cex=cex):
+            continue
+        S1 = final_state(L, o)
+        ds1 = L.field(S1, "State", "data_stack")
+        if not L.require(o, z3.BoolVal(len(ds1.items) == 2), "push leaves one result above the other reference", cex=cex):
+            continue
+        L.require(o, veq(L.ex, ds1.items[0], keep), "push does not change a vector that is still referenced elsewhere", cex=cex)
+        exp = Enum("cell::Cell", "Vector", Struct("cell::Cell::Vector", {0: Vec("cell::Cell", None, [a0, a1, x])}))
+        L.require(o, veq(L.ex, ds1.items[1], exp), "push appends the cell at the end", cex=cex)
+
+
 def run(L, tier, only=None):
     L.ex.path_budget = 4000
     if not only or "ord" in only:
@@ -142,6 +249,10 @@ def run(L, tier, only=None):
         L.lemma("C12 Ord antisymmetry", antisym_lemma)
     if not only or "collect" in only:
         L.lemma("C12 collect takes exactly the visible cells asked for", collect_lemma)
+    if not only or "maps" in only:
+        L.lemma("C12 insert then get (association list)", map_words_lemma)
+        L.lemma("C12 remove drops the key", remove_get_lemma)
+        L.lemma("C12 push appends, vectors are values", push_nth_lemma)
     for side in (0, 1):
         if not only or "tags" in only:
             L.lemma("C12 order and equality see through tags (operand %d)" % side, ord_tag_lemma(side))
